@@ -43,7 +43,7 @@ fn main() {
                 i += 1;
             }
             let seed = std::env::var("VERIF_SEED").ok().and_then(|s| s.parse::<i64>().ok()).unwrap_or(0);
-            let budget_s = std::env::var("WPV_BUDGET_S").ok().and_then(|s| s.parse::<f64>().ok()).unwrap_or(if tier.is_quick() { 40.0 } else { 1500.0 });
+            let budget_s = std::env::var("WPV_BUDGET_S").ok().and_then(|s| s.parse::<f64>().ok()).unwrap_or(if tier.is_quick() { 150.0 } else { 1500.0 });
             let ctx = Ctx { tier, seed, start: std::time::Instant::now(), budget_s };
             let code = checks::run(&id, &ctx);
             std::process::exit(code);
